@@ -9,6 +9,7 @@
 -/
 import XsVerif.Model.Paths
 import XsVerif.Lemmas.NsMapper
+import XsVerif.Lemmas.Localise
 
 set_option linter.unusedSimpArgs false
 
@@ -207,5 +208,549 @@ example : resolveName [("t", "urn:t")] (renderName [("t", "urn:t")] ⟨"urn:t", 
 theorem render_counterexample :
     renderName [("", "urn:t")] ⟨"", "date"⟩ = .loc "date" ∧
     resolveName [("", "urn:t")] (.loc "date") = some ⟨"urn:t", "date"⟩ := by decide
+
+
+/-! ## The fault-localisation clause
+
+  "If a valid document is damaged at a single node, the document is reported invalid and at least one error is
+  located at the damaged node or its parent, while no error is located outside the damaged node's ancestor chain
+  and subtree" — for the compositional validator `Val` of Model/Localise.lean (the shape of
+  elements.py:597-878 / groups.py:953-1087).  Modelling assumptions, all checked on the real code by the
+  correspondence run (harness/props/c19.py, `hypotheses`):
+    (H-own)  the errors an element owns are a function of its declaration, tag, attributes, character data and
+             the names of its children                                  — built into `Val.pre`/`Val.post`;
+    (H-gov)  `GovLocal`: the declaration of a child is a function of the parent's declaration, the parent's
+             attributes and the child's name (false with a wildcard beside a same-named declaration:
+             `gov_nonlocal_counterexample`, finding C19-F2);
+    (H-eff)  `Effective`: the damaged site is governed (the run descends to it) and its own check rejects the
+             damaged input (the catalogue damages "by construction"; that the content-model / datatype checks
+             reject is the subject of C01/C07 and C11–C13). -/
+open XsVerif.Localise
+
+variable {D E : Type}
+
+/-- (bad value, bad / missing / extra attribute) the errors of the damaged document are exactly the errors of the
+    relabelled element's subtree: one of them at the damaged node, all of them at or below it. -/
+theorem relabel_fault_localised (v : Val D E) (d : D) (t : Doc) (p : List Nat) (a' : Attrs) (tx' : String)
+    (dp : D) (tg : String) (a : Attrs) (tx : String) (cs : List Doc)
+    (hv : errs v d t = []) (hr : reach v d t p = some (dp, .node tg a tx cs))
+    (heff : own v dp tg a' tx' (names cs) ≠ []) :
+    (∃ e ∈ errs v d ((Fault.relabel p a' tx').apply t), e.1 = p) ∧
+    (∀ e ∈ errs v d ((Fault.relabel p a' tx').apply t), p <+: e.1) ∧
+    ((∀ j, v.gov dp a' (names cs) j = v.gov dp a (names cs) j) →
+       ∀ e ∈ errs v d ((Fault.relabel p a' tx').apply t), e.1 = p) := by
+  have key := errs_editAt v (setLabel a' tx') d t p dp _ hv hr (by simp [setLabel, Doc.tag])
+  simp only [Fault.apply, key, setLabel, errs_node]
+  refine ⟨?_, ?_, ?_⟩
+  · obtain ⟨e, he, h0⟩ := exists_here_of_own v dp tg a' tx' (names cs) (errsKids v dp a' (names cs) 0 cs) heff
+    exact ⟨(p ++ e.1, e.2), by simp only [below, List.mem_map]; exact ⟨e, he, rfl⟩, by simp [h0]⟩
+  · intro e he
+    obtain ⟨e0, _, rfl⟩ := mem_below he
+    exact List.prefix_append _ _
+  · intro hg e he
+    have hsub := reach_valid v d t p dp _ hv hr
+    rw [errs_node] at hsub
+    simp only [List.append_eq_nil_iff] at hsub
+    rw [errsKids_congr_gov v dp a a' (names cs) cs 0 hg, hsub.1.2] at he
+    obtain ⟨e0, h0, rfl⟩ := mem_below he
+    simp only [List.append_nil, List.mem_append] at h0
+    rcases h0 with h0 | h0 <;> simp [mem_here h0]
+
+/-- (extra child, misplaced child) under `GovLocal`, when the children of a governed element are replaced by
+    `l1 ++ c :: l2` where `l1`, `l2` only contain former children: every error is located at that element or in
+    the subtree of the new child `c`, and the element's own rejection surfaces at the element. -/
+theorem child_fault_localised (v : Val D E) (hl : GovLocal v) (d : D) (t : Doc) (q : List Nat)
+    (dq : D) (tg : String) (a : Attrs) (tx : String) (cs l1 l2 : List Doc) (c : Doc)
+    (hv : errs v d t = []) (hr : reach v d t q = some (dq, .node tg a tx cs))
+    (hm : ∀ x ∈ l1 ++ l2, x ∈ cs) :
+    (∀ e ∈ errs v d (editAt (setKids fun _ => l1 ++ c :: l2) t q), e.1 = q ∨ (q ++ [l1.length]) <+: e.1) ∧
+    (own v dq tg a tx (names (l1 ++ c :: l2)) ≠ [] →
+       ∃ e ∈ errs v d (editAt (setKids fun _ => l1 ++ c :: l2) t q), e.1 = q) := by
+  have key := errs_editAt v (setKids fun _ => l1 ++ c :: l2) d t q dq _ hv hr (by simp [setKids, Doc.tag])
+  have hsub := reach_valid v d t q dq _ hv hr
+  rw [errs_node] at hsub
+  simp only [List.append_eq_nil_iff] at hsub
+  have hk := hsub.1.2
+  simp only [key, setKids, errs_node]
+  constructor
+  · intro e he
+    obtain ⟨e0, h0, rfl⟩ := mem_below he
+    simp only [List.mem_append] at h0
+    rcases h0 with (h0 | h0) | h0
+    · left; simp [mem_here h0]
+    · rw [errsKids_append] at h0
+      have h1 : errsKids v dq a (names (l1 ++ c :: l2)) 0 l1 = [] := by
+        apply errsKids_old_nil v hl dq a cs hk
+        · intro k x hx
+          simp only [Nat.zero_add, names_getElem?]
+          have hlt : k < l1.length := by
+            rcases Nat.lt_or_ge k l1.length with h | h
+            · exact h
+            · simp [List.getElem?_eq_none h] at hx
+          rw [List.getElem?_append_left hlt, hx]; rfl
+        · intro x hx; exact hm x (List.mem_append_left _ hx)
+      have h2 : errsKids v dq a (names (l1 ++ c :: l2)) (0 + l1.length + 1) l2 = [] := by
+        apply errsKids_old_nil v hl dq a cs hk
+        · intro k x hx
+          simp only [Nat.zero_add, names_getElem?]
+          have e1 : l1.length + 1 + k = l1.length + (k + 1) := by omega
+          rw [e1, List.getElem?_append_right (Nat.le_add_right _ _)]
+          simp [hx]
+        · intro x hx; exact hm x (List.mem_append_right _ hx)
+      simp only [Nat.zero_add] at h2
+      simp only [h1, List.nil_append, errsKids, Nat.zero_add, h2, List.append_nil] at h0
+      right
+      cases hg : v.gov dq a (names (l1 ++ c :: l2)) l1.length with
+      | none => simp [hg] at h0
+      | some d' =>
+        simp only [hg, under, List.mem_map] at h0
+        obtain ⟨e1, _, rfl⟩ := h0
+        exact ⟨e1.1, by simp⟩
+    · left; simp [mem_here h0]
+  · intro heff
+    obtain ⟨e, he, h0⟩ := exists_here_of_own v dq tg a tx (names (l1 ++ c :: l2))
+      (errsKids v dq a (names (l1 ++ c :: l2)) 0 (l1 ++ c :: l2)) heff
+    exact ⟨(q ++ e.1, e.2), by simp only [below, List.mem_map]; exact ⟨e, he, rfl⟩, by simp [h0]⟩
+
+/-- (missing child, and any rearrangement of former children) under `GovLocal`, when the children of a governed
+    element are replaced by a list of former children, every error is located at that element. -/
+theorem child_removed_localised (v : Val D E) (hl : GovLocal v) (d : D) (t : Doc) (q : List Nat)
+    (dq : D) (tg : String) (a : Attrs) (tx : String) (cs cs' : List Doc)
+    (hv : errs v d t = []) (hr : reach v d t q = some (dq, .node tg a tx cs))
+    (hm : ∀ x ∈ cs', x ∈ cs) :
+    (∀ e ∈ errs v d (editAt (setKids fun _ => cs') t q), e.1 = q) ∧
+    (own v dq tg a tx (names cs') ≠ [] → ∃ e ∈ errs v d (editAt (setKids fun _ => cs') t q), e.1 = q) := by
+  have key := errs_editAt v (setKids fun _ => cs') d t q dq _ hv hr (by simp [setKids, Doc.tag])
+  have hsub := reach_valid v d t q dq _ hv hr
+  rw [errs_node] at hsub
+  simp only [List.append_eq_nil_iff] at hsub
+  have hk := hsub.1.2
+  have h1 : errsKids v dq a (names cs') 0 cs' = [] := by
+    apply errsKids_old_nil v hl dq a cs hk
+    · intro k x hx
+      simp only [Nat.zero_add, names_getElem?, hx]; rfl
+    · exact hm
+  simp only [key, setKids, errs_node, h1, List.append_nil]
+  constructor
+  · intro e he
+    obtain ⟨e0, h0, rfl⟩ := mem_below he
+    simp only [List.mem_append] at h0
+    rcases h0 with h0 | h0 <;> simp [mem_here h0]
+  · intro heff
+    obtain ⟨e, he, h0⟩ := exists_here_of_own v dq tg a tx (names cs') [] heff
+    simp only [List.append_nil] at he
+    exact ⟨(q ++ e.1, e.2), by simp only [below, List.mem_map]; exact ⟨e, he, rfl⟩, by simp [h0]⟩
+
+/-- (H-eff) the fault is effective: its site is governed in the valid document and the site's own check rejects
+    the damaged input -/
+def Effective (v : Val D E) (d : D) (t : Doc) : Fault → Prop
+  | .relabel p a' tx' => ∃ dp tg a tx cs, reach v d t p = some (dp, .node tg a tx cs) ∧
+      own v dp tg a' tx' (names cs) ≠ []
+  | .insert q i c => ∃ dq tg a tx cs, reach v d t q = some (dq, .node tg a tx cs) ∧ i ≤ cs.length ∧
+      own v dq tg a tx (names (insertAt i c cs)) ≠ []
+  | .remove q i => ∃ dq tg a tx cs, reach v d t q = some (dq, .node tg a tx cs) ∧
+      own v dq tg a tx (names (cs.eraseIdx i)) ≠ []
+  | .move q i j => ∃ dq tg a tx cs, reach v d t q = some (dq, .node tg a tx cs) ∧ i < cs.length ∧
+      own v dq tg a tx (names (moveTo i j cs)) ≠ []
+
+theorem editAt_congr (f g : Doc → Doc) (d : D) (v : Val D E) (t : Doc) (p : List Nat) (dp : D) (sub : Doc)
+    (hr : reach v d t p = some (dp, sub)) (h : f sub = g sub) : editAt f t p = editAt g t p := by
+  induction p generalizing d t with
+  | nil =>
+    simp only [reach, Option.some.injEq, Prod.mk.injEq] at hr
+    rw [← hr.2] at h
+    simpa [editAt] using h
+  | cons i is ih =>
+    obtain ⟨tg, a, tx, cs⟩ := t
+    simp only [reach] at hr
+    cases hc : cs[i]? with
+    | none => simp [hc] at hr
+    | some c =>
+      cases hg : v.gov d a (names cs) i with
+      | none => simp [hc, hg] at hr
+      | some d' =>
+        simp only [hc, hg] at hr
+        simp only [editAt, hc, ih d' c hr]
+
+/-- **Fault localisation** (the clause of C19, for every document, declaration, validator of the shape `Val` with a
+    local choice of declarations, and every effective single-node fault of the catalogue):
+    (a) the damaged document has at least one error, (b) some error is located at the damaged node or its parent,
+    (c) every error is located in the damaged node's ancestor chain or subtree. -/
+theorem single_fault_localised (v : Val D E) (hl : GovLocal v) (d : D) (t : Doc) (f : Fault)
+    (hv : errs v d t = []) (heff : Effective v d t f) :
+    errs v d (f.apply t) ≠ [] ∧
+    (∃ e ∈ errs v d (f.apply t), near f.damaged e.1 = true) ∧
+    (∀ e ∈ errs v d (f.apply t), inZone f.damaged e.1 = true) := by
+  suffices h : (∃ e ∈ errs v d (f.apply t), near f.damaged e.1 = true) ∧
+      (∀ e ∈ errs v d (f.apply t), inZone f.damaged e.1 = true) by
+    have h' := h
+    obtain ⟨⟨e, he, _⟩, _⟩ := h'
+    exact ⟨List.ne_nil_of_mem he, h⟩
+  cases f with
+  | relabel p a' tx' =>
+    obtain ⟨dp, tg, a, tx, cs, hr, ho⟩ := heff
+    obtain ⟨⟨e, he, hp⟩, hz, _⟩ := relabel_fault_localised v d t p a' tx' dp tg a tx cs hv hr ho
+    refine ⟨⟨e, he, by simp [near, Fault.damaged, hp]⟩, fun e he => ?_⟩
+    have := hz e he
+    simp only [inZone, Fault.damaged, Bool.or_eq_true, List.isPrefixOf_iff_prefix]
+    exact Or.inr this
+  | insert q i c =>
+    obtain ⟨dq, tg, a, tx, cs, hr, hi, ho⟩ := heff
+    have hm : ∀ x ∈ cs.take i ++ cs.drop i, x ∈ cs := by
+      intro x hx
+      rcases List.mem_append.mp hx with h | h
+      · exact List.mem_of_mem_take h
+      · exact List.mem_of_mem_drop h
+    have hlen : (cs.take i).length = i := by simp [List.length_take]; omega
+    obtain ⟨hz, hn⟩ := child_fault_localised v hl d t q dq tg a tx cs (cs.take i) (cs.drop i) c hv hr hm
+    have he : editAt (setKids (insertAt i c)) t q = editAt (setKids fun _ => cs.take i ++ c :: cs.drop i) t q :=
+      editAt_congr _ _ d v t q dq _ hr (by simp [setKids, insertAt])
+    simp only [Fault.apply, Fault.damaged, he]
+    rw [hlen] at hz
+    refine ⟨?_, fun e he => ?_⟩
+    · obtain ⟨e, he, hq⟩ := hn ho
+      exact ⟨e, he, by simp [near, hq]⟩
+    · simp only [inZone, Bool.or_eq_true, List.isPrefixOf_iff_prefix]
+      rcases hz e he with h | h
+      · left; rw [h]; exact List.prefix_append _ _
+      · right; exact h
+  | remove q i =>
+    obtain ⟨dq, tg, a, tx, cs, hr, ho⟩ := heff
+    obtain ⟨hz, hn⟩ := child_removed_localised v hl d t q dq tg a tx cs (cs.eraseIdx i) hv hr
+      (fun x hx => List.mem_of_mem_eraseIdx hx)
+    have he : editAt (setKids fun cs => cs.eraseIdx i) t q = editAt (setKids fun _ => cs.eraseIdx i) t q :=
+      editAt_congr _ _ d v t q dq _ hr (by simp [setKids])
+    simp only [Fault.apply, Fault.damaged, he]
+    refine ⟨?_, fun e he => ?_⟩
+    · obtain ⟨e, he, hq⟩ := hn ho
+      exact ⟨e, he, by simp [near, hq]⟩
+    · simp [inZone, hz e he]
+  | move q i j =>
+    obtain ⟨dq, tg, a, tx, cs, hr, hi, ho⟩ := heff
+    have hm : ∀ x ∈ moveTo i j cs, x ∈ cs := by
+      intro x hx
+      unfold moveTo at hx
+      cases hc : cs[i]? with
+      | none => simpa [hc] using hx
+      | some c =>
+        simp only [hc, insertAt, List.mem_append, List.mem_cons] at hx
+        rcases hx with h | rfl | h
+        · exact List.mem_of_mem_eraseIdx (List.mem_of_mem_take h)
+        · exact List.mem_of_getElem? hc
+        · exact List.mem_of_mem_eraseIdx (List.mem_of_mem_drop h)
+    obtain ⟨hz, hn⟩ := child_removed_localised v hl d t q dq tg a tx cs (moveTo i j cs) hv hr hm
+    have he : editAt (setKids (moveTo i j)) t q = editAt (setKids fun _ => moveTo i j cs) t q :=
+      editAt_congr _ _ d v t q dq _ hr (by simp [setKids])
+    simp only [Fault.apply, Fault.damaged, he]
+    refine ⟨?_, fun e he => ?_⟩
+    · obtain ⟨e, he, hq⟩ := hn ho
+      exact ⟨e, he, by simp [near, hq]⟩
+    · rw [hz e he]
+      simp only [inZone, Bool.or_eq_true, List.isPrefixOf_iff_prefix]
+      left; exact List.prefix_append _ _
+
+
+/-- the validator denoted by observation tables chooses declarations locally, by construction -/
+theorem tableVal_local (own : List OwnRow) (gov : List GovRow) : GovLocal (tableVal own gov) := by
+  intro d a ns ns' j j' x h1 h2
+  simp [tableVal, h1, h2]
+
+/-- the computed (H-eff) implies `Effective` -/
+theorem effectiveB_sound (v : Val D E) (d : D) (t : Doc) (f : Fault) (h : effectiveB v d t f = true) :
+    Effective v d t f := by
+  cases f with
+  | relabel p a' tx' =>
+    simp only [effectiveB] at h
+    split at h
+    · rename_i dp tg a tx cs hr
+      exact ⟨dp, tg, a, tx, cs, hr, by simpa using h⟩
+    · simp at h
+  | insert q i c =>
+    simp only [effectiveB] at h
+    split at h
+    · rename_i dq tg a tx cs hr
+      simp only [Bool.and_eq_true, decide_eq_true_eq] at h
+      exact ⟨dq, tg, a, tx, cs, hr, h.1, by simpa using h.2⟩
+    · simp at h
+  | remove q i =>
+    simp only [effectiveB] at h
+    split at h
+    · rename_i dq tg a tx cs hr
+      exact ⟨dq, tg, a, tx, cs, hr, by simpa using h⟩
+    · simp at h
+  | move q i j =>
+    simp only [effectiveB] at h
+    split at h
+    · rename_i dq tg a tx cs hr
+      simp only [Bool.and_eq_true, decide_eq_true_eq] at h
+      exact ⟨dq, tg, a, tx, cs, hr, h.1, by simpa using h.2⟩
+    · simp at h
+
+/-- **What the correspondence run instantiates**: for every pair of observation tables, every document the
+    tables accept and every fault the tables make effective, the errors the tables predict for the damaged
+    document satisfy the three clauses.  (The harness compares these predicted errors with the errors of the real
+    validator, position by position and in order.) -/
+theorem observed_fault_localised (own : List OwnRow) (gov : List GovRow) (d : Nat) (t : Doc) (f : Fault)
+    (hv : errs (tableVal own gov) d t = []) (heff : effectiveB (tableVal own gov) d t f = true) :
+    errs (tableVal own gov) d (f.apply t) ≠ [] ∧
+    (∃ e ∈ errs (tableVal own gov) d (f.apply t), near f.damaged e.1 = true) ∧
+    (∀ e ∈ errs (tableVal own gov) d (f.apply t), inZone f.damaged e.1 = true) :=
+  single_fault_localised _ (tableVal_local own gov) d t f hv (effectiveB_sound _ d t f heff)
+
+/-! ### non-vacuity: a validator with a local choice of declarations, a valid document, effective faults -/
+
+/-- `<r id=…>` with content `a` (an integer, declaration 1) then `b` (any text, declaration 2) -/
+def vLoc : Val Nat String where
+  pre := fun d _ at_ tx _ =>
+    if d = 0 then (if at_.any (fun p => p.1 == "id") then [] else ["missing attribute id"])
+    else if d = 1 then (if tx = "foo" then ["not an integer"] else [])
+    else []
+  post := fun d _ _ _ ns => if d = 0 then (if ns = ["a", "b"] then [] else ["children"]) else []
+  gov := fun d _ ns j =>
+    if d = 0 then (match ns[j]? with
+      | some x => if x = "a" then some 1 else if x = "b" then some 2 else none
+      | none => none)
+    else none
+
+def tLoc : Doc := .node "r" [("id", "7")] "" [.node "a" [] "1" [], .node "b" [] "x" []]
+
+theorem vLoc_local : GovLocal vLoc := by
+  intro d a ns ns' j j' x h1 h2
+  simp [vLoc, h1, h2]
+
+example : GovLocal vLoc ∧ errs vLoc 0 tLoc = [] ∧
+    Effective vLoc 0 tLoc (.relabel [0] [] "foo") ∧
+    Effective vLoc 0 tLoc (.insert [] 1 (.node "zzz" [] "" [])) ∧
+    Effective vLoc 0 tLoc (.remove [] 0) ∧
+    Effective vLoc 0 tLoc (.move [] 0 1) ∧
+    errs vLoc 0 ((Fault.relabel [0] [] "foo").apply tLoc) = [([0], "not an integer")] ∧
+    errs vLoc 0 ((Fault.insert [] 1 (.node "zzz" [] "" [])).apply tLoc) = [([], "children")] ∧
+    errs vLoc 0 ((Fault.move [] 0 1).apply tLoc) = [([], "children")] := by
+  refine ⟨vLoc_local, by decide, ⟨1, "a", [], "1", [], rfl, by decide⟩,
+    ⟨0, "r", [("id", "7")], "", _, rfl, by decide, by decide⟩,
+    ⟨0, "r", [("id", "7")], "", _, rfl, by decide⟩,
+    ⟨0, "r", [("id", "7")], "", _, rfl, by decide, by decide⟩, by decide, by decide, by decide⟩
+
+/-  Full statement without (H-gov) — false for the code as it is (finding C19-F2):
+      ∀ v d t f, errs v d t = [] → Effective v d t f → ∀ e ∈ errs v d (f.apply t), inZone f.damaged e.1
+    groups.py:1013-1041: once the content model is broken the declaration of the remaining children is looked up
+    by name (`self.match_element`), not by the model; with `sequence(a : xs:int, any*)` the second `a` of
+    `<r><a>1</a><a>foo</a></r>` is matched by the wildcard, but after an extra first child it is validated against
+    `a : xs:int` and an error appears at a sibling of the damaged node. -/
+def vWild : Val Nat String where
+  pre := fun d _ _ tx _ => if d = 1 then (if tx = "foo" then ["not an integer"] else []) else []
+  post := fun d _ _ _ ns => if d = 0 then (if ns[0]? = some "a" then [] else ["children"]) else []
+  gov := fun d _ ns j =>
+    if d = 0 then
+      (if ns[0]? = some "a" then (if j = 0 then some 1 else none)
+       else if ns[j]? = some "a" then some 1 else none)
+    else none
+
+def tWild : Doc := .node "r" [] "" [.node "a" [] "1" [], .node "a" [] "foo" []]
+
+theorem gov_nonlocal_counterexample :
+    ¬ GovLocal vWild ∧ errs vWild 0 tWild = [] ∧
+    Effective vWild 0 tWild (.insert [] 0 (.node "zzz" [] "" [])) ∧
+    errs vWild 0 ((Fault.insert [] 0 (.node "zzz" [] "" [])).apply tWild)
+      = [([2], "not an integer"), ([], "children")] ∧
+    inZone (Fault.insert [] 0 (.node "zzz" [] "" [])).damaged [2] = false := by
+  refine ⟨fun h => ?_, by decide, ⟨0, "r", [], "", _, rfl, by decide, by decide⟩, by decide, by decide⟩
+  have := h 0 [] ["a", "a"] ["zzz", "a", "a"] 1 2 "a" (by decide) (by decide)
+  revert this
+  decide
+
+/-! ## Every error path locates its element (`error_paths_locate`) -/
+
+theorem toTs_getElem? (r : String → String) (cs : List Doc) (i : Nat) :
+    (toTs r cs)[i]? = (cs[i]?).map (toT r) := by
+  induction cs generalizing i with
+  | nil => simp [toTs]
+  | cons c cs ih => cases i <;> simp [toTs, ih]
+
+theorem isPos_valid (r : String → String) (t : Doc) (p : List Nat) (h : IsPos t p) : Valid (toT r t) p := by
+  induction p generalizing t with
+  | nil => cases t; simp [toT, Valid]
+  | cons i is ih =>
+    obtain ⟨tg, a, tx, cs⟩ := t
+    obtain ⟨c, hc, hp⟩ := h
+    exact ⟨toT r c, by simp [toTs_getElem?, hc], ih c hp⟩
+
+/-- **For every validator of the shape `Val`, every document and every reported error: `etree_getpath` computes a
+    path for the error's element and that path selects exactly that element** (whatever the rendering `r` of the
+    tags; `path_selects_unique` + the positions of errors are positions of the document). -/
+theorem error_paths_locate (v : Val D E) (d : D) (t : Doc) (r : String → String) (e : Located E)
+    (he : e ∈ errs v d t) :
+    ∃ path, getPath (toT r t) e.1 = some path ∧ selectAbs (toT r t) path = [e.1] := by
+  obtain ⟨path, hp⟩ := path_exists (toT r t) e.1 (isPos_valid r t e.1 (errs_pos v t d e he))
+  exact ⟨path, hp, path_selects_unique _ _ _ hp⟩
+
+/-- **The clause of C19 in terms of paths**: after an effective single-node fault, some error carries a path that
+    selects exactly the damaged node or exactly its parent, and the path of every error selects exactly one node,
+    which lies in the damaged node's ancestor chain or subtree. -/
+theorem single_fault_paths_locate (v : Val D E) (hl : GovLocal v) (d : D) (t : Doc) (f : Fault)
+    (r : String → String) (hv : errs v d t = []) (heff : Effective v d t f) :
+    (∃ e ∈ errs v d (f.apply t), ∃ path, getPath (toT r (f.apply t)) e.1 = some path ∧
+        (selectAbs (toT r (f.apply t)) path = [f.damaged] ∨
+         selectAbs (toT r (f.apply t)) path = [f.damaged.dropLast])) ∧
+    (∀ e ∈ errs v d (f.apply t), ∃ path n, getPath (toT r (f.apply t)) e.1 = some path ∧
+        selectAbs (toT r (f.apply t)) path = [n] ∧ inZone f.damaged n = true) := by
+  obtain ⟨_, ⟨e, he, hn⟩, hz⟩ := single_fault_localised v hl d t f hv heff
+  constructor
+  · obtain ⟨path, hp, hs⟩ := error_paths_locate v d (f.apply t) r e he
+    refine ⟨e, he, path, hp, ?_⟩
+    simp only [near, Bool.or_eq_true, beq_iff_eq] at hn
+    rcases hn with h | h
+    · left; rw [hs, h]
+    · right; rw [hs, h]
+  · intro e he
+    obtain ⟨path, hp, hs⟩ := error_paths_locate v d (f.apply t) r e he
+    exact ⟨path, e.1, hp, hs, hz e he⟩
+
+example : ∃ e ∈ errs vLoc 0 ((Fault.relabel [0] [] "foo").apply tLoc),
+    getPath (toT id ((Fault.relabel [0] [] "foo").apply tLoc)) e.1 = some ("r", [⟨"a", none⟩]) :=
+  ⟨([0], "not an integer"), by decide, by decide⟩
+
+/-! ## Lazy resources: what `error.path` of a pruned tree selects
+
+  For a lazy resource the path is computed on the tree as it is when the error is created
+  (`lazyState`: yielded depth-level elements cleared, elements not yet read by the parser absent). -/
+
+theorem selectStep_pre (cs' cs : List T) (i : Nat) (s : Step) (hp : preF cs' cs = true)
+    (h : stepFor cs' i = some s) : i ∈ selectStep cs s := by
+  unfold stepFor at h
+  cases hc : cs'[i]? with
+  | none => simp [hc] at h
+  | some c =>
+    simp only [hc, Option.some.injEq] at h
+    have hs := idxOf_split cs' i c 0 hc
+    simp only [Nat.zero_add] at hs
+    obtain ⟨C, hC⟩ := idxOf_preF c.tag cs' cs 0 hp
+    split at h
+    · rename_i h1
+      subst h
+      simp only [selectStep]
+      rw [hC, hs]
+      simp
+    · subst h
+      simp only [selectStep, Nat.add_one_ne_zero, if_false, Nat.add_sub_cancel]
+      rw [hC, hs, List.append_assoc, List.getElem?_append_right (Nat.le_refl _)]
+      simp
+
+/-- **A lazy error path always selects the error's element in the full document** (possibly together with other
+    elements: see `lazy_path_counterexample`): `t'` any prefix cut of the document `t`. -/
+theorem lazy_path_contains (t' t : T) (pos : List Nat) (p : String × List Step)
+    (hpre : pre t' t = true) (h : getPath t' pos = some p) : pos ∈ selectAbs t p := by
+  unfold getPath at h
+  cases hs : getSteps t' pos with
+  | none => simp [hs] at h
+  | some steps =>
+    simp only [hs, Option.map_some, Option.some.injEq] at h
+    subst h
+    have htag : t'.tag = t.tag := by
+      cases t'; cases t; simp only [pre, Bool.and_eq_true, beq_iff_eq] at hpre; exact hpre.1
+    simp only [selectAbs, htag, if_true]
+    clear htag
+    induction pos generalizing t' t steps with
+    | nil =>
+      cases t'; simp only [getSteps, Option.some.injEq] at hs; subst hs; cases t; simp [select]
+    | cons i is ih =>
+      obtain ⟨tg', ch'⟩ := t'
+      obtain ⟨tg, ch⟩ := t
+      simp only [pre, Bool.and_eq_true, beq_iff_eq] at hpre
+      simp only [getSteps] at hs
+      cases h1 : stepFor ch' i with
+      | none => simp [h1] at hs
+      | some s =>
+        cases h2 : ch'[i]? with
+        | none => simp [h1, h2] at hs
+        | some c' =>
+          simp only [h1, h2] at hs
+          cases h3 : getSteps c' is with
+          | none => simp [h3] at hs
+          | some rest =>
+            simp only [h3, Option.map_some, Option.some.injEq] at hs
+            subst hs
+            obtain ⟨c, hc, hcp⟩ := preF_get ch' ch i c' hpre.2 h2
+            have hi := selectStep_pre ch' ch i s hpre.2 h1
+            simp only [select, List.mem_flatMap]
+            exact ⟨i, hi, by simp only [hc, List.mem_map]; exact ⟨is, ih c' c hcp rest h3, rfl⟩⟩
+
+/-- … in particular for every state a lazy resource goes through -/
+theorem lazy_state_path_contains (k done n : Nat) (t t' : T) (pos : List Nat) (p : String × List Step)
+    (hs : lazyState k done n t = some t') (h : getPath t' pos = some p) : pos ∈ selectAbs t p :=
+  lazy_path_contains t' t pos p (lazyState_pre k done n t t' hs) h
+
+theorem idxOf_tags (name : String) (l l' : List T) (k : Nat) (h : l.map T.tag = l'.map T.tag) :
+    idxOf name l k = idxOf name l' k := by
+  induction l generalizing l' k with
+  | nil => cases l' <;> simp_all [idxOf]
+  | cons c cs ih =>
+    cases l' with
+    | nil => simp at h
+    | cons c' cs' =>
+      simp only [List.map_cons, List.cons.injEq] at h
+      simp only [idxOf, h.1, ih cs' (k + 1) h.2]
+
+theorem stepFor_tags (l l' : List T) (i : Nat) (h : l.map T.tag = l'.map T.tag) :
+    stepFor l i = stepFor l' i := by
+  have hi : (l[i]?).map T.tag = (l'[i]?).map T.tag := by
+    have := congrArg (fun x => x[i]?) h
+    simpa using this
+  have ht : (l.take i).map T.tag = (l'.take i).map T.tag := by
+    rw [List.map_take, List.map_take, h]
+  unfold stepFor
+  cases h1 : l[i]? with
+  | none =>
+    cases h2 : l'[i]? with
+    | none => rfl
+    | some c' => simp [h1, h2] at hi
+  | some c =>
+    cases h2 : l'[i]? with
+    | none => simp [h1, h2] at hi
+    | some c' =>
+      simp only [h1, h2, Option.map_some, Option.some.injEq] at hi
+      simp only [hi, idxOf_tags c'.tag _ _ 0 ht, idxOf_tags c'.tag _ _ 0 h]
+
+/-  Full statement (false for the code as it is): the path of a lazy error selects exactly its element in the
+    document, `∀ t' t pos p, pre t' t → getPath t' pos = some p → selectAbs t p = [pos]`.
+    Proved under the guard `completeAlong` (on the way to the element no sibling is missing in the lazy state). -/
+theorem lazy_path_exact_partial (t' t : T) (pos : List Nat) (hc : completeAlong t' t pos = true)
+    (htag : t'.tag = t.tag) : getPath t' pos = getPath t pos := by
+  unfold getPath
+  rw [htag]
+  congr 1
+  clear htag
+  induction pos generalizing t' t with
+  | nil => cases t'; cases t; rfl
+  | cons i is ih =>
+    obtain ⟨tg', ch'⟩ := t'
+    obtain ⟨tg, ch⟩ := t
+    simp only [completeAlong, Bool.and_eq_true, beq_iff_eq] at hc
+    obtain ⟨hn, hrest⟩ := hc
+    cases h2 : ch'[i]? with
+    | none => simp [h2] at hrest
+    | some c' =>
+      cases h3 : ch[i]? with
+      | none => simp [h2, h3] at hrest
+      | some c =>
+        simp only [h2, h3] at hrest
+        have hstep : stepFor ch' i = stepFor ch i := stepFor_tags ch' ch i hn
+        simp only [getSteps, hstep, h2, h3]
+        cases stepFor ch i <;> simp [ih c' c hrest]
+
+example : completeAlong (.node "r" [.node "a" [], .node "b" [.node "c" []]])
+    (.node "r" [.node "a" [.node "x" []], .node "b" [.node "c" []]]) [1, 0] = true := by decide
+
+/-- the first of two `item`s is being validated at lazy depth 2 while the parser has read 4 elements
+    (`r`, `item`, `q`, `q`): the path of the second `q` is `/r/item/q[2]`, which selects two elements of the
+    document (replayed on the real code by the harness with a document larger than the parser's read block). -/
+theorem lazy_path_counterexample :
+    let t := T.node "r" [.node "item" [.node "q" [], .node "q" []], .node "item" [.node "q" [], .node "q" []]]
+    lazyState 2 0 4 t = some (.node "r" [.node "item" [.node "q" [], .node "q" []]]) ∧
+    getPath (.node "r" [.node "item" [.node "q" [], .node "q" []]]) [0, 1]
+      = some ("r", [⟨"item", none⟩, ⟨"q", some 2⟩]) ∧
+    selectAbs t ("r", [⟨"item", none⟩, ⟨"q", some 2⟩]) = [[0, 1], [1, 1]] := by
+  intro t
+  exact ⟨rfl, by decide, by decide⟩
 
 end XsVerif.Props.C19
